@@ -19,6 +19,7 @@ import Scico.Proofs.LinOps10
 import Scico.Proofs.LinOps11
 import Scico.Proofs.LinOps12
 import Scico.Proofs.LinOps13
+import Scico.Proofs.LinOps14
 import Mathlib.Data.Complex.Basic
 import Mathlib.Tactic.NormNum
 
@@ -863,5 +864,37 @@ example : (List.range 4).map (xray3Project (α := ℚ) 1 (fun _ => 1) (fun _ => 
     (fun _ => 3) 2 2) = [0, 0, 0, 3] := by
   simp [xray3Project, onDet, sumTo, List.range, List.range.loop]
   norm_num
+
+
+/-! ### zero-padded N-d DFT -/
+
+/-- `DFT(input_shape = ns, axes, axes_shape)` with transform shape `ms ≥ ns` (zero padding) over ANY subset of the axes
+    of an N-d array: the inverse the documentation promises — inverse transform at the transform shape, then crop to
+    the input shape — undoes `_eval = fftn(x, s=axes_shape, axes, norm)`, for every normalisation.  (N-d form of
+    `C04_dft_inv_documented`; this is what `fixes/dft-inv-padded.patch` implements.) -/
+theorem C04_dft_nd_inv_documented {F : Type} [Field F] (ns ms : List Nat) (ws : List (Option F)) (s s' : F) (x : V F)
+    (p : Nat) (hfit : FitsPad ns ms) (hr : RootsOpt ms ws) (hs : s * s' * (dftAxesSize ms ws : F) = 1)
+    (hp : p < prodL ns) :
+    dftInvDocNd ns ms (ws.map (Option.map (·⁻¹))) s' (dftFwdPad ns ms ws s x) p = x p :=
+  dftPad_inv_documented ns ms ws s s' x p hfit hr hs hp
+
+/-- proved part for `DFT.inv` AS CODED in N dimensions (`ifftn(z, s=inv_axes_shape, axes)`): it undoes `DFT` when the
+    transform shape equals the input shape.  Missing for the full statement: `ms > ns` on some axis, where the code crops
+    the spectrum (next theorem). -/
+theorem C04_dft_nd_inv_partial {F : Type} [Field F] (ns : List Nat) (ws : List (Option F)) (s s' : F) (x : V F) (p : Nat)
+    (hr : RootsOpt ns ws) (hs : s * s' * (dftAxesSize ns ws : F) = 1) (hp : p < prodL ns) :
+    dftInvCodedNd ns ns (ws.map (Option.map (·⁻¹))) s' (dftFwdPad ns ns ws s x) p = x p :=
+  dftInvCoded_unpadded ns ws s s' x p hr hs hp
+
+/-- negation witness in N dimensions for the code as it is (known finding `dft-inv-padded`): `DFT((1,2), axes=(1,),
+    axes_shape=(4,))` on `[[0, 1]]`: `inv(eval(x))[0,0] = (1 − i)/2 ≠ 0`. -/
+theorem C04_dft_nd_inv_padded_fails :
+    dftInvCodedNd [1, 2] [1, 4] [none, some (-1 : ℂ)] (1 / 2)
+        (dftFwdPad [1, 2] [1, 4] [none, some (-Complex.I)] 1 (fun j => if j = 1 then 1 else 0)) 0
+      ≠ (fun j => if j = 1 then (1 : ℂ) else 0) 0 := by
+  simp [dftInvCodedNd, dftFwdPad, dftAxes, padNd, slab, prodL, sumTo, dftEval.npow, Complex.ext_iff]
+
+example : FitsPad [2, 3] [4, 3] := by simp [FitsPad]
+example : embedIdx [2, 3] [4, 5] 4 = 6 := by decide
 
 end Scico.Props.C04
